@@ -3,14 +3,14 @@
 import json, os, shutil, sys, re
 prop, n, caught, rc = sys.argv[1:5]
 note = sys.argv[5] if len(sys.argv) > 5 else ''
-src = f'/tmp/mut/{prop}/OUT'
+src = f'/var/tmp/seedsrc/{prop}' if os.path.isdir(f'/var/tmp/seedsrc/{prop}') else f'/tmp/mut/{prop}/OUT'
 dst = f'/verif/seeded/{prop}-m{n}'
 os.makedirs(dst, exist_ok=True)
 shutil.copy(f'{src}/m{n}.patch.diff', f'{dst}/patch.diff')
 shutil.copy(f'{src}/m{n}.demo.rs', f'{dst}/demo.rs')
 txt = open(f'{src}/m{n}.txt').read()
 open(f'{dst}/agent_notes.txt', 'w').write(txt)
-log = f'/var/tmp/seed.{prop}.m{n}/check.log'
+log = f'/var/tmp/seed.{prop}.m{n}.log' if os.path.exists(f'/var/tmp/seed.{prop}.m{n}.log') else f'/var/tmp/seed.{prop}.m{n}/check.log'
 viol = []
 if os.path.exists(log):
     viol = [l.strip()[:200] for l in open(log) if '[failed]' in l][:6]
